@@ -157,9 +157,12 @@ def _make_callable(spec: Dict[str, Any], slot: int):
         if ckind == "mod":
             m = _STATE["mods"][slot % 2]
             m.TABLE[name] = body
-        elif ckind == "main":
+        elif ckind == "main" and _STATE["main"] is not None:
             m = _STATE["main"]
             m.__dict__["C14_TABLE"][name] = body
+        elif ckind == "main":                                     # pragma: no cover  (__main__ already uses these names)
+            m = _STATE["mods"][slot % 2]
+            m.TABLE[name] = body
         else:
             m = _STATE["ev"]
             m.TABLE[name] = body
@@ -790,7 +793,7 @@ class C14(Prop):
         ref="DESIGN.md §5 C14")
     lean_targets = ["Cel.Props.C14", "Cel.Bridge.Funcs"]
     audit_namespaces = ["Cel.Props.C14", "Cel.Bridge.Funcs"]
-    gen_names = ["Funcs"]
+    gen_names = ["Funcs", "Logic"]
     trusted = ["host callables of each kind built by the harness behave as their specification token says (py/verif/props/c14.py:_behave = Cel.Drv.C14.parseBeh)",
                "lark parsing of the rendered CEL text; CPython argument evaluation order and exception propagation",
                "strict operators other than int+int / int<int (bool and list operands) are not corresponded"]
